@@ -1,6 +1,6 @@
 (* C12 — clients hand every received message to the application once, in order. *)
 From Coq Require Import ZArith List Bool.
-From HP Require Import Bytes Wire ParamsOK AioSession AioFacts TwSession LegacyClient LegacyFacts.
+From HP Require Import Bytes Wire ParamsOK AioSession AioFacts TwSession LegacyClient LegacyFacts BlkSession BlkFacts.
 Import ListNotations.
 
 (* asyncio: in every reachable state  (handed to read()/__anext__) ++ (waiting in read_queue) = every OP_PUBLISH
@@ -25,6 +25,11 @@ Theorem C12_legacy_recv : forall s d rest,
   (snd (cbs fs) = false -> e = None -> next limitP (lbuf s') = NeedMore).
 Proof. exact recv_hands_over_everything. Qed.
 
+(* blocking thread session: what read() returned ++ what waits in read_queue = every OP_PUBLISH decoded, in order *)
+Theorem C12_blocking_session : forall ident secret es, Qb (brun ident secret es).
+Proof. exact brun_Qb. Qed.
+
 Print Assumptions C12_asyncio.
+Print Assumptions C12_blocking_session.
 Print Assumptions C12_twisted.
 Print Assumptions C12_legacy_recv.
